@@ -441,6 +441,11 @@ const (
 	v20BrCtx
 )
 
+type v20WatchSender struct {
+	done     atomic.Bool // the watcher function returned
+	panicked atomic.Bool
+}
+
 type v20Sender struct {
 	fatalGen int // -1 = plain
 	ord      int // fatal: 1-based ordinal among the fatal reports of its generation
@@ -459,7 +464,8 @@ type v20Hist struct {
 	started bool
 
 	sigQ      []int
-	watchQ    []bool
+	watchQ    []bool            // notifications not yet received by Run: [0] sits in the resolver's 1-slot buffer, [1] is a blocked provider goroutine
+	watchS    []*v20WatchSender // parallel to watchQ
 	asyncQ    []*v20Sender
 	closed    bool
 	cancelled bool
@@ -577,11 +583,27 @@ func (h *v20Hist) observeBranch(gate int) int {
 		}
 		return v20BrSignal
 	}
-	if len(h.watchQ) > 0 && len(col.configProvider.Watch()) == len(h.watchQ)-1 {
+	// one pending notification: it left the buffer.  Two pending (the generator only makes the second
+	// one wait behind a plain change, with no stop event around): the blocked sender's value moves
+	// into the buffer in the same instant, so the length does not tell; a reload that did not consume
+	// a SIGHUP did take the change.
+	if (len(h.watchQ) == 1 && len(col.configProvider.Watch()) == 0) ||
+		(len(h.watchQ) >= 2 && gate == v20GateRetire && !h.watchQ[0]) {
 		e := h.watchQ[0]
-		h.watchQ = h.watchQ[1:]
+		h.watchQ, h.watchS = h.watchQ[1:], h.watchS[1:]
 		if e {
 			h.stopTaken = true
+		}
+		if len(h.watchQ) > 0 { // the next notification must now be in the buffer, its sender released
+			t0 := time.Now()
+			for !h.watchS[0].done.Load() && time.Since(t0) < v20Deadline {
+				time.Sleep(100 * time.Microsecond)
+			}
+			if !h.watchS[0].done.Load() || len(col.configProvider.Watch()) != 1 {
+				h.fail("watch-notification-lost", fmt.Sprintf("after Run received a notification the next pending one (error=%v) is not in the watcher channel: sender returned=%v, buffered=%d",
+					h.watchQ[0], h.watchS[0].done.Load(), len(col.configProvider.Watch())))
+				h.watchQ, h.watchS = nil, nil
+			}
 		}
 		return v20BrWatch
 	}
@@ -696,6 +718,7 @@ func (h *v20Hist) dead(what string) {
 }
 
 func (h *v20Hist) releaseGate() {
+	h.checkWatchSenders()
 	h.w.release <- struct{}{}
 }
 
@@ -719,13 +742,53 @@ func (h *v20Hist) injWatch(e bool) {
 	h.w.mu.Lock()
 	wf := h.w.watcher
 	h.w.mu.Unlock()
-	wf(&confmap.ChangeEvent{Error: err})
+	// a provider calls the watcher function from a goroutine of its own; with a notification already
+	// pending the call blocks (1-slot channel) until Run has received the first one
+	ws := &v20WatchSender{}
+	go func() {
+		defer func() {
+			if recover() != nil {
+				ws.panicked.Store(true)
+			}
+			ws.done.Store(true)
+		}()
+		wf(&confmap.ChangeEvent{Error: err})
+	}()
+	if len(h.watchQ) == 0 {
+		t0 := time.Now()
+		for !ws.done.Load() {
+			if time.Since(t0) > v20Deadline {
+				h.fail("watch-notification-blocks", "the watcher function does not return although no notification is pending")
+				h.dead("watcher call with an empty buffer blocks")
+				return
+			}
+			time.Sleep(100 * time.Microsecond)
+		}
+	} else {
+		h.stats["watch_second_pending"]++
+	}
 	h.watchQ = append(h.watchQ, e)
+	h.watchS = append(h.watchS, ws)
 	arg := 0
 	if e {
 		arg = 1
 	}
 	h.emit(v20LWatch, arg, h.pc != v20PcIdle)
+}
+
+// a notification sent while another one is pending must stay pending (its sender blocked) until Run
+// has received the first: a sender that has returned while Run is parked was dropped.
+func (h *v20Hist) checkWatchSenders() {
+	for i, ws := range h.watchS {
+		if ws.panicked.Load() {
+			h.fail("watch-sender-panics", "the watcher function panicked in the provider's goroutine")
+		}
+		if i >= 1 && ws.done.Load() && !ws.panicked.Load() {
+			h.fail("watch-notification-lost", fmt.Sprintf("notification #%d (error=%v) sent while another was pending returned without Run having received anything: it was dropped", i, h.watchQ[i]))
+			h.watchQ, h.watchS = h.watchQ[:i], h.watchS[:i]
+			return
+		}
+	}
 }
 
 func (h *v20Hist) injAsync(fatal bool) {
@@ -974,6 +1037,19 @@ func v20RunHistory(idx int) v20Result {
 	}
 	res := h.finish() // snapshot first: the clean-up below lets a deadlocked Run continue
 	close(w.quit)
+	for t0 := time.Now(); time.Since(t0) < v20Deadline; {
+		blocked := false
+		for _, ws := range h.watchS {
+			blocked = blocked || !ws.done.Load()
+		}
+		if !blocked {
+			break
+		}
+		select { // release provider goroutines still blocked in the watcher function
+		case <-col.configProvider.Watch():
+		case <-time.After(time.Millisecond):
+		}
+	}
 	if h.started {
 		// leave no goroutine behind (the package's TestMain runs goleak): cancel, and hand the
 		// blocked senders of a deadlocked run their receiver
@@ -995,10 +1071,26 @@ func v20RunHistory(idx int) v20Result {
 // inject one external event (not at the forced end of a history)
 func (h *v20Hist) inject(watchOK, liveSvc bool, fatalBudget *int) {
 	r := h.r
-	if liveSvc && h.liveGen >= 0 && *fatalBudget > 0 && len(h.asyncQ) == 0 && r.Intn(100) < 45 {
+	if liveSvc && h.liveGen >= 0 && *fatalBudget > 0 && len(h.asyncQ) == 0 && len(h.watchQ) < 2 && r.Intn(100) < 45 {
 		*fatalBudget--
 		h.injAsync(true)
 		return
+	}
+	if len(h.watchQ) >= 2 {
+		h.injSig(0) // with a provider goroutine blocked behind a pending change only reload requests are added (see NOTES)
+		return
+	}
+	// a second notification right behind a pending plain change (back-to-back notifications of a
+	// provider while Run is busy), only when no stop event is around
+	if watchOK && len(h.watchQ) == 1 && !h.watchQ[0] && h.pc != v20PcIdle && !h.closed && !h.cancelled && len(h.asyncQ) == 0 && r.Intn(100) < 80 {
+		term := false
+		for _, x := range h.sigQ {
+			term = term || x != 0
+		}
+		if !term {
+			h.injWatch(r.Intn(100) < 60)
+			return
+		}
 	}
 	for tries := 0; tries < 20; tries++ {
 		switch r.Pick(22, 22, 10, 8, 12, 12, 8) {
